@@ -43,7 +43,7 @@ def recheck(ids):
                 print(f"{sid}: patch does not apply to HEAD: {oa[:200]}")
                 continue
             t0 = time.time()
-            rcc, oc = sh(f"{ROOT}/check {pid} --tier quick --no-evidence", cwd=ROOT, env=dict(ENV, VERIF_REPO=wt), timeout=7200)
+            rcc, oc = sh(f"{ROOT}/check {pid} --tier quick --no-evidence", cwd=ROOT, env=dict(ENV, VERIF_REPO=wt, VERIF_VIOL_DIR=f"/tmp/viol_recheck_{sid}"), timeout=7200)
             viol = [l for l in oc.splitlines() if l.startswith("violation in")][:2]
             head = sh("git -C /verif rev-parse --short HEAD")[1].strip()
             meta["ran"].append({"cmd": f"recheck after strengthening (verif {head}): VERIF_REPO=<worktree> ./check {pid} --tier quick", "exit": rcc,
